@@ -169,6 +169,19 @@ def _form(vals, form):
     return tuple(vals)
 
 
+def _variants_equal(a, b):
+    """In-place and copying variants run on arrays with possibly different memory layouts (the twin
+    is a contiguous copy), so floating-point reductions may associate differently: integers must be
+    identical, floats agree to a few ulp of the largest magnitude."""
+    if a.dtype.kind not in "fc":
+        return bool(np.array_equal(a, b))
+    if a.size == 0:
+        return True
+    eps = float(np.finfo(a.real.dtype).eps)
+    scale = max(float(np.max(np.abs(a))), float(np.max(np.abs(b))), 1e-300)
+    return bool(np.max(np.abs(a - b)) <= 64 * eps * scale)
+
+
 def _apply(ctx, case, ds, name, in_place, **kw):
     """Run an operation in the drawn variant AND in the other one on a copy; both must agree."""
     snap = (ds.array.tobytes(), ds.array.shape, str(ds.array.dtype), ds.origin.copy(), ds.sampling.copy(), list(ds.units))
@@ -183,7 +196,7 @@ def _apply(ctx, case, ds, name, in_place, **kw):
     if r is not None:
         raise core.Violation("%s(modify_in_place=True) returned %r, expected None" % (name, type(r).__name__), case)
     a, b = out_copy, twin_src
-    if a.array.shape != b.array.shape or not np.array_equal(a.array, b.array, equal_nan=(a.array.dtype.kind in "fc")):
+    if a.array.shape != b.array.shape or a.array.dtype != b.array.dtype or not _variants_equal(a.array, b.array):
         raise core.Violation("%s: in-place and copying variants give different arrays (shapes %s vs %s, dtypes %s vs %s)" % (name, b.array.shape, a.array.shape, b.array.dtype, a.array.dtype), case)
     if not (np.array_equal(np.asarray(a.origin, float), np.asarray(b.origin, float)) and np.array_equal(np.asarray(a.sampling, float), np.asarray(b.sampling, float)) and list(a.units) == list(b.units)):
         raise core.Violation("%s: in-place and copying variants give different calibration" % name, case)
